@@ -63,7 +63,7 @@ class C12(Campaign):
         k = gen.knobs(listeners=(1, 4), p_model_cb=0.3, p_listener_cb=0.45, p_multi_guard_provider=0.35,
                       p_validator=0.25, rtc=[True, True, False], allow=[False, True], p_conv=0.4,
                       async_modes=["none", "none", "none", "all", "mixed", "one"], drivers=["sync"],
-                      p_unknown_event=0.04, n_ops=(5, 18), p_ret=0.4, p_shared_name=0.35)
+                      p_unknown_event=0.04, n_ops=(5, 18), p_ret=0.4, p_shared_name=0.35, p_prop_guard=0.15)
         sc = gen.gen_scenario(rnd, k, profile="C12")
         prog = sc["programs"][0]
         # distinct listener objects that compare equal (value-based __eq__): still distinct providers
